@@ -230,7 +230,7 @@ class DifferentiableCombinedExtendedFunction(CombinedExtendedFunction, Different
         self.diff_functions = diff_functions
         self.default_twosided = twosided
     
-    def diff(self, shock_dict, h=None, outputs=None, hide_zeros=False, twosided=False):
+    def diff(self, shock_dict, h=None, outputs=None, hide_zeros=False, twosided=None):
         if twosided is None:
             twosided = self.default_twosided
 
